@@ -167,8 +167,9 @@ func (e *Engine) verifyContract(ct *Contract) (rep *FuncReport) {
 	}
 	e.heapWrites[c.fn] = nil
 	e.runFunc(c, ct, fd)
-	// frame: heap fields written must be declared (modifies-heap); none declared = read-only on heap structures
-	if ct.Yields != "" || len(ct.ModifiesHeap) > 0 || ct.ReadOnlyHeap {
+	// frame: heap fields written must be declared (modifies-heap); none declared = read-only on heap structures. Checked for
+	// every function under contract (callers assume that undeclared heap fields are unchanged).
+	{
 		declared := map[string]bool{}
 		for _, h := range ct.ModifiesHeap {
 			declared[h] = true
